@@ -264,6 +264,25 @@ Theorem C04_mul : forall a n q,
   tl (c_mul a n) q = repeat_app n (tl a q).
 Proof. exact mul_tl. Qed.
 
+(* a *= n (n >= 1, as the code requires): n copies; a + b: a new circuit, a itself unchanged *)
+Theorem C04_imul : forall a n q,
+  Forall amo (cycles a) -> in_range a -> (forall o, In o (iter_ops (cycles a)) -> valid_op a o = true) ->
+  tl (c_imul a n) q = repeat_app (S (n - 1)) (tl a q).
+Proof. exact imul_tl. Qed.
+
+Theorem C04_add : forall a b q,
+  nq b = nq a -> Forall amo (cycles a) -> Forall amo (cycles b) -> in_range a ->
+  all_qudits (fun x => x < nq a) (cycles b) ->
+  (forall o, In o (iter_ops (cycles a)) -> valid_op a o = true) ->
+  (forall o, In o (iter_ops (cycles b)) -> valid_op a o = true) ->
+  exists s, c_add a b = (a, OkC s) /\ tl s q = tl a q ++ tl b q.
+Proof. exact add_tl. Qed.
+
+(* one pass of unfold_all: every block replaced, in iteration order, by its inner operations *)
+Theorem C04_unfold_once : forall c q,
+  tl (unfold_once c) q = filter (touches q) (flat_map expand_op (iter_ops (cycles c))).
+Proof. exact unfold_once_tl. Qed.
+
 Theorem C04_clear : forall c q, tl (clear c) q = [] /\ nq (clear c) = nq c /\ rads (clear c) = rads c.
 Proof. exact clear_tl. Qed.
 
@@ -292,9 +311,8 @@ Proof. intros c i q. split; [exact (insert_cycle_tl_partial c i q)|exact (pop_id
    unchanged) is not proved; correspondence + oracle cover it *)
 Definition C04_fold_full : Prop := fold_keeps_unfolded_timelines_full.
 
-(* What is still correspondence-only in C04: batch_replace (a loop of `replace` with index
-   compensation), c_add / c_imul / unfold_all (loops of the proved append), insert_circuit
-   as_gate, and fold as a whole. *)
+(* What is still correspondence-only in C04: batch_replace (a loop of the proved `replace` with
+   index compensation), the fixpoint of unfold_all (its step is C04_unfold_once), and fold as a whole. *)
 Definition C04_full : Prop :=
   C04_fold_full /\
   forall c pts ops q, exists ref_timeline : list op, tl (fst (batch_replace c pts ops)) q = ref_timeline.
